@@ -503,3 +503,81 @@ func ShapeOK(e *Ex, d *Doc, optDefault bool) bool {
 	}
 	return false
 }
+
+// FirstBad returns the offset (in the rendered document) of the first thing
+// that breaks the shape relation, in document order: the start of a value of
+// the wrong kind / a null that is not admitted, or the start of a key the
+// example does not have. known=false when the first problem has no position
+// of its own (a missing required key) or the document conforms.
+func FirstBad(e *Ex, d *Doc, optDefault bool) (pos int, known bool) {
+	if e.Any {
+		return 0, false
+	}
+	if d.Kind == KNull {
+		if e.Kind == KNull || e.Nullable == 1 {
+			return 0, false
+		}
+		return d.Off, true
+	}
+	switch e.Kind {
+	case KNull:
+		return d.Off, true
+	case KBool, KInt, KStr:
+		if d.Kind != e.Kind {
+			return d.Off, true
+		}
+		return 0, false
+	case KFloat:
+		if d.Kind != KFloat && d.Kind != KInt {
+			return d.Off, true
+		}
+		return 0, false
+	case KArr:
+		if d.Kind != KArr {
+			return d.Off, true
+		}
+		if len(e.Kids) == 0 {
+			if len(d.Kids) > 0 {
+				return d.Kids[0].Off, true
+			}
+			return 0, false
+		}
+		for i, k := range d.Kids {
+			j := i
+			if j >= len(e.Kids) {
+				j = len(e.Kids) - 1
+			}
+			if p, ok := FirstBad(e.Kids[j], k, optDefault); ok {
+				return p, true
+			}
+			if !ShapeOK(e.Kids[j], k, optDefault) {
+				return 0, false
+			}
+		}
+		return 0, false
+	case KObj:
+		if d.Kind != KObj {
+			return d.Off, true
+		}
+		for i, k := range d.Kids {
+			found := -1
+			for j := range e.Keys {
+				if bytesEq(e.Keys[j], d.Keys[i]) {
+					found = j
+					break
+				}
+			}
+			if found < 0 {
+				return d.KeyOffs[i], true
+			}
+			if p, ok := FirstBad(e.Kids[found], k, optDefault); ok {
+				return p, true
+			}
+			if !ShapeOK(e.Kids[found], k, optDefault) {
+				return 0, false
+			}
+		}
+		return 0, false
+	}
+	return 0, false
+}
